@@ -1,8 +1,8 @@
 (* C02 -- Each block delivers exactly the new ancestry of its Atropos.
    Statements only; proofs in proofs/AbftDfs.v AbftChain.v AbftSeal.v AbftProcess.v. *)
 From Coq Require Import NArith List.
-From LV Require Import model.VecIndex model.Abft model.AbftRun spec.AbftSpec
-  proofs.AbftDfs proofs.AbftDfsFuel proofs.AbftSeal proofs.AbftProcess proofs.AbftChain proofs.AbftRoots proofs.AbftRooted proofs.AbftRunInv proofs.VecStep proofs.AbftInv proofs.AbftInvStep proofs.AbftGraph proofs.AbftSealWitness.
+From LV Require Import model.VecIndex model.Abft model.AbftRun spec.AbftSpec proofs.AbftFrame
+  proofs.AbftDfs proofs.AbftDfsFuel proofs.AbftSeal proofs.AbftProcess proofs.AbftChain proofs.AbftRoots proofs.AbftRooted proofs.AbftRunInv proofs.VecStep proofs.AbftInv proofs.AbftInvStep proofs.AbftGraph proofs.AbftFuel proofs.AbftClosedInv proofs.AbftSealWitness.
 Import ListNotations.
 Local Open Scope N_scope.
 
@@ -47,15 +47,23 @@ Theorem C02_frames_consecutive : forall cap end_block es st e r bl st',
 Proof. exact process_frames. Qed.
 
 (* each block's Atropos is a root of the block's frame: it is stored in the root table for exactly that
-   frame (R = the table right after the processed event's own roots were registered; it does not change
-   before a seal).  [V] = every yes-vote of the election that names a root names a stored root of the frame
-   being decided; it holds at genesis / Reset / after a seal and is re-established by every call.
-   ([names_root R f a] reads "a <> zero hash -> a root (f, _, a) is in R": a decided yes-vote always
-   carries the observed root; that the zero hash never occurs is not proved.) *)
+   frame.  R is the root table right after the processed event's own slots were registered, and it is
+   bounded from both sides (audit-F issue 1: an unbounded R made the clause trivial): it contains the old
+   table and nothing but the old table plus the slots (g, creator e, id e), self-parent frame < g <= frame e;
+   when the call accepts the event without sealing, R is the root table of the resulting state.
+   [V] = every yes-vote of the election that names a root names a stored root of the frame being decided.
+   The statement over the GRAPH (the Atropos is an accepted event whose frame interval contains the block's
+   frame) is C02_atropos_is_graph_root below. *)
 Theorem C02_atropos_is_root : forall cap end_block es st e r bl st',
   V st -> elinv st -> process cap end_block es st e = (r, bl, st') ->
-  exists R, (forall r0, In r0 (l_roots st) -> In r0 R) /\ all_rooted R bl /\ (sealed_last bl = false -> V st').
-Proof. exact process_atropos_rooted. Qed.
+  exists R,
+    (forall r0, In r0 (l_roots st) -> In r0 R) /\
+    (forall r0, In r0 R -> In r0 (l_roots st) \/
+        (r_val r0 = a_creator e /\ r_id r0 = a_id e /\ r_frame r0 <= a_frame e /\
+         exists spf, AbftFrame.spf_of es e = Ok spf /\ spf < r_frame r0)) /\
+    all_rooted R bl /\
+    (sealed_last bl = false -> V st' /\ (r = Ok tt -> l_roots st' = R)).
+Proof. exact process_atropos_rooted_exact. Qed.
 Theorem C02_V_initially : forall ep v st, V (genesis ep v) /\ V (reset st ep v).
 Proof. intros; split; [apply V_genesis | apply V_reset_state]. Qed.
 
@@ -72,15 +80,34 @@ Theorem C02_atropos_is_graph_root : forall cap eb i e u bl st',
   J i -> elinv (i_st i) -> V (i_st i) -> guard i e true = None ->
   wf_new (length (l_vals (i_st i))) (l_idx (i_st i)) (vev (l_vals (i_st i)) e) ->
   process cap eb (aput (a_id e) e (i_es i)) (i_st i) e = (Ok u, bl, st') ->
-  forall b, In b bl -> b_atropos b <> 0 ->
+  forall b, In b bl ->
     exists e0, (e0 = e \/ In e0 (acc_events i)) /\ a_id e0 = b_atropos b /\
                spf_in (aput (a_id e) e (i_es i)) e0 < b_frame b <= a_frame e0.
-Proof. intros cap eb i e u bl st' HJ HI HV G W E b Hb Hz. exact (proj1 (accepted_blocks_graph cap eb i e u bl st' HJ HI HV G W E b Hb Hz)). Qed.
+Proof. intros cap eb i e u bl st' HJ HI HV G W E b Hb. exact (proj1 (accepted_blocks_graph cap eb i e u bl st' HJ HI HV G W E b Hb)). Qed.
 (* the root table = graph root slots, as an invariant of every run *)
 Theorem C02_root_table_is_graph_slots : forall i, J i -> forall r,
   In r (l_roots (i_st i)) <->
   exists e, In (a_id e) (i_proc i) /\ get_event (i_es i) (a_id e) = Some e /\ slot_of (i_es i) e r.
 Proof. intros i HJ. exact (j_roots i HJ). Qed.
+
+(* audit-F: the hypothesis "confirmed marks are ancestor-closed" of C02_process_delivers holds before every
+   operation of every run (the event store grows by accepted events and shrinks by rejected ones in between),
+   and only accepted events of the epoch are ever marked: so within an epoch no event is delivered twice and
+   every delivered event's ancestors were delivered no later, over whole runs.  [ops_wf]: events passing the
+   guard are well-formed for the index; [alive]: no operation hit crit. *)
+Theorem C02_confirmed_closed_on_every_run : forall cap pol smp epoch raw ops,
+  ops_wf cap pol smp (start epoch raw) ops -> alive cap pol smp (start epoch raw) ops ->
+  let i := run_inst cap pol smp (start epoch raw) ops in
+  closed (i_es i) (l_conf (i_st i)) /\ (forall x, marked (l_conf (i_st i)) x -> In x (i_proc i)).
+Proof. intros. apply run_K; auto; [apply start_J | apply start_good | apply start_K]. Qed.
+
+(* audit-F F4: no call ever runs out of the model's fuel (all loops: frame computation, processKnownRoots,
+   bootstrapElection, handleElection, the confirm DFS); V and elinv hold in every reachable state *)
+Theorem C02_process_never_out_of_fuel : forall cap eb es st e, V st -> elinv st ->
+  fst (fst (process cap eb es st e)) <> Err EFuel.
+Proof. exact process_never_out_of_fuel. Qed.
+Theorem C02_bootstrap_never_out_of_fuel : forall cap eb es p, fst (fst (bootstrap cap eb es p)) <> Err EFuel.
+Proof. exact bootstrap_never_out_of_fuel. Qed.
 
 (* restart: the blocks Bootstrap may emit obey the same numbering *)
 Theorem C02_bootstrap_frames : forall cap end_block es p r bl st',
@@ -108,3 +135,6 @@ Print Assumptions C02_V_initially.
 Print Assumptions C02_invariants_hold_on_every_run.
 Print Assumptions C02_atropos_is_graph_root.
 Print Assumptions C02_root_table_is_graph_slots.
+Print Assumptions C02_confirmed_closed_on_every_run.
+Print Assumptions C02_process_never_out_of_fuel.
+Print Assumptions C02_bootstrap_never_out_of_fuel.
